@@ -218,8 +218,8 @@ class TextWriter:
                 args = (f"(type {args[0]})",)
             else:
                 args = (
+                    str(args[1]),
                     f"(type {args[0]})",
-                    f"(const.i64 {args[1].index})",
                 )
         elif opcode == "select":
             args = (f"(result {t})" for t in args[0])
